@@ -162,3 +162,5 @@ def run(chk):
     calc_amu(chk, mod, dem)
     from . import C15b
     C15b.run(chk, mod, dem)
+    from . import C15c
+    C15c.run(chk)
